@@ -375,6 +375,7 @@ Section Dyn16.
     (match o_err b, o with
      | None, AAdd _ _ => true
      | None, ARemove k => match mget k m with Some _ => true | None => false end
+     | None, AReload => true
      | Some ENotExist, ARemove k => match mget k m with Some _ => false | None => true end
      | Some EMaxLinks, AAdd k _ =>
          (eff c (g_th c) =? 0) && g_dynamic c &&
@@ -389,8 +390,10 @@ Section Dyn16.
     spec_hist c m (o :: ro) (b :: rb) = step_spec m o b && spec_hist c (apply_op m o (o_err b)) ro rb.
   Proof. intros. cbn [spec_hist]. unfold step_spec. reflexivity. Qed.
 
-  Definition op_name (o : op16) : name := match o with AAdd k _ => k | ARemove k => k end.
-  Definition op_val_ok (o : op16) : Prop := match o with AAdd _ v => val_ok v | ARemove _ => True end.
+  Definition op_val_ok (o : op16) : Prop := match o with AAdd _ v => val_ok v | _ => True end.
+  (** the name an edit touches does not share its complete index list with a stored name *)
+  Definition op_nc (m : fmap) (o : op16) : Prop :=
+    match o with AAdd k _ | ARemove k => no_coll (k :: map fst m) | AReload => True end.
 
   Lemma observe_ok : forall s m e, Inv s m ->
     (if g_dynamic c then Bool.eqb (o_hamt (observe e s)) (rule c m) else o_hamt (observe e s)) = true /\
@@ -415,12 +418,12 @@ Section Dyn16.
     rewrite (has_collision_intro hidx (k :: map fst m) k g) in Hn; [discriminate|left; reflexivity|right; exact Hg|congruence|congruence].
   Qed.
 
-  Lemma step16_ok : forall s m o, Inv s m -> op_val_ok o -> no_coll (op_name o :: map fst m) ->
+  Lemma step16_ok : forall s m o, Inv s m -> op_val_ok o -> op_nc m o ->
     let (s', b) := step16 fl c hidx s o in
     step_spec m o b = true /\ Inv s' (apply_op m o (o_err b)).
   Proof.
     intros s m o HInv Hov Hnc. pose proof HInv as [Hm [Hv HI]].
-    unfold step16. destruct o as [k v|k]; cbn [op_name op_val_ok] in *.
+    unfold step16. destruct o as [k v|k|]; cbn [op_nc op_val_ok] in *.
     - (* AddChild *)
       assert (Hm' : keys_nodup (mput k v m)) by (apply mput_nodup; exact Hm).
       assert (Hv' : vals_ok (mput k v m)) by (apply vals_ok_mput; assumption).
@@ -588,13 +591,25 @@ Section Dyn16.
              apply orb_true_iff in Hr. destruct Hr as [R|R].
              ++ apply Z.ltb_lt in R. lia.
              ++ rewrite R in H2. discriminate.
+    - (* reload *)
+      assert (HI' : Inv (reload16 fl c s) m).
+      { split; [exact Hm|]. split; [exact Hv|]. destruct s as [l es th|cs tl sc th]; cbn [reload16 fl_spec f_reloadtl].
+        - destruct HI as [Hl [Hs [Hes [Hth [Hd Hr]]]]].
+          split; [apply sort_links_nodup; exact Hl|]. split; [intros x; rewrite (sort_links_same l x); apply Hs|].
+          split; [|split; [reflexivity|split; [exact Hd|exact Hr]]].
+          rewrite Hes. unfold est_size. rewrite (total_perm c _ _ (sort_links_perm l)). reflexivity.
+        - destruct HI as [Hwf [Hs [Htl [Hth Hr]]]]. split; [exact Hwf|]. split; [exact Hs|]. split; [reflexivity|]. split; [reflexivity|exact Hr]. }
+      assert (Eb : o_err (observe None (reload16 fl c s)) = None) by (destruct s; reflexivity).
+      split; [|rewrite Eb; exact HI']. unfold step_spec. rewrite Eb. cbn [apply_op].
+      destruct (observe_ok (reload16 fl c s) m None HI') as [O1 O2]. rewrite O1, O2. reflexivity.
   Qed.
+
 
   (* ---------------- histories ---------------- *)
   Fixpoint ops_ok (m : fmap) (ops : list op16) (obs : list ob16) : Prop :=
     match ops, obs with
     | o :: ro, b :: rb =>
-        op_val_ok o /\ no_coll (op_name o :: map fst m) /\ ops_ok (apply_op m o (o_err b)) ro rb
+        op_val_ok o /\ op_nc m o /\ ops_ok (apply_op m o (o_err b)) ro rb
     | _, _ => True
     end.
 
@@ -633,6 +648,14 @@ Section Dyn16.
     - destruct H1 as [Hw1 [Hs1 _]]. destruct H2 as [Hw2 [Hs2 _]]. f_equal. f_equal. f_equal.
       apply (shard_unique hidx cs1 cs2 Hw1 Hw2). intros x. rewrite (Hs1 x), (Hs2 x). apply Hs.
   Qed.
+
+  (** reloading does not change the root *)
+  Lemma reload_repr : forall s m, Inv s m -> repr_of c (reload16 fl c s) = repr_of c s.
+  Proof.
+    intros s m HI. pose proof (step16_ok s m AReload HI I I) as H. unfold step16 in H. destruct H as [_ HI'].
+    cbn [apply_op observe] in HI'. assert (E : o_err (observe None (reload16 fl c s)) = None) by (destruct s; reflexivity).
+    rewrite E in HI'. cbn [apply_op] in HI'. apply (inv_repr _ _ _ _ HI' HI). intros x; reflexivity.
+  Qed.
 End Dyn16.
 
 (* ------------------------------------------------------------------ *)
@@ -661,6 +684,18 @@ Proof.
   pose proof (proj2 (run16_ok c hidx Hlen Hpos He ops1 (init16 c) [] (init_inv c hidx He) H1)) as I1.
   pose proof (proj2 (run16_ok c hidx Hlen Hpos He ops2 (init16 c) [] (init_inv c hidx He) H2)) as I2.
   exact (inv_repr c hidx _ _ _ _ I1 I2 Hs).
+Qed.
+
+(** a reload (persist, re-open from the root node) at any point of any history leaves the root unchanged *)
+Theorem reload_canonical : forall c hidx ops,
+  (forall a b, llen (hidx a) = llen (hidx b)) -> (forall a, hidx a <> []) -> rule c [] = false ->
+  ops_ok hidx [] ops (snd (run16 fl_spec c hidx (init16 c) ops)) ->
+  repr_of c (reload16 fl_spec c (fst (run16 fl_spec c hidx (init16 c) ops))) =
+  repr_of c (fst (run16 fl_spec c hidx (init16 c) ops)).
+Proof.
+  intros c hidx ops Hlen Hpos He Hok.
+  pose proof (proj2 (run16_ok c hidx Hlen Hpos He ops (init16 c) [] (init_inv c hidx He) Hok)) as HI.
+  exact (reload_repr c hidx Hlen Hpos He _ _ HI).
 Qed.
 
 (** the directory is a HAMT exactly when the rule holds for its entries (dynamic directories) *)
@@ -710,25 +745,25 @@ Definition w4_ops := [AAdd (rep 6 "a") v34; AAdd (rep 6 "b") v34; AAdd (rep 6 "c
     a shrink by its 50 name bytes: converted to a BasicDirectory of 164 bytes *)
 Definition w5_ops := [AAdd (rep 6 "a") v34; AAdd (rep 6 "b") v34; AAdd (rep 50 "x") v34; AAdd (rep 50 "x") v34].
 Lemma addname_refuted :
-  model_meets (mkflags16 false false false false true) (cfgL 120) whidx w5_ops = false /\
+  model_meets (mkflags16 false false false false true false) (cfgL 120) whidx w5_ops = false /\
   model_meets fl_spec (cfgL 120) whidx w5_ops = true.
 Proof. vm_compute. split; reflexivity. Qed.
 
 Lemma prefix_refuted :
-  model_meets (mkflags16 true false false false false) (cfgL 229) whidx w1_ops = false /\
+  model_meets (mkflags16 true false false false false false) (cfgL 229) whidx w1_ops = false /\
   model_meets fl_spec (cfgL 229) whidx w1_ops = true.
 Proof. vm_compute. split; reflexivity. Qed.
 Lemma thresh_refuted :
-  model_meets (mkflags16 false true false false false) (cfgL 112) whidx w2_ops = false /\
+  model_meets (mkflags16 false true false false false false) (cfgL 112) whidx w2_ops = false /\
   model_meets fl_spec (cfgL 112) whidx w2_ops = true.
 Proof. vm_compute. split; reflexivity. Qed.
 Lemma gate_refuted :
-  model_meets (mkflags16 false false true false false) (cfgL 100) whidx w3_ops = false /\
+  model_meets (mkflags16 false false true false false false) (cfgL 100) whidx w3_ops = false /\
   model_meets fl_spec (cfgL 100) whidx w3_ops = true.
 Proof. vm_compute. split; reflexivity. Qed.
 Lemma units_refuted :
-  model_meets (mkflags16 false false true true false) (cfgB 196) whidx w4_ops = false /\
-  model_meets (mkflags16 false false true false false) (cfgB 196) whidx w4_ops = true /\
+  model_meets (mkflags16 false false true true false false) (cfgB 196) whidx w4_ops = false /\
+  model_meets (mkflags16 false false true false false false) (cfgB 196) whidx w4_ops = true /\
   model_meets fl_spec (cfgB 196) whidx w4_ops = true.
 Proof. vm_compute. repeat split; reflexivity. Qed.
 
